@@ -853,7 +853,8 @@ func tlvParseEntries(s string) ([]tlvEntry, bool) {
 func tlvDictWordOK(w []byte) bool {
 	switch w[0] {
 	case sutils.VALTYPE_ENC_SMALL_STRING[0]:
-		return len(w) >= 3 && len(w) == 3+int(binary.LittleEndian.Uint16(w[1:])) && len(w) <= 65535
+		// (before patch c16-5 the reader stepped over a string word with a uint16 sum: words of more than 65535 bytes were unframeable)
+		return len(w) >= 3 && len(w) == 3+int(binary.LittleEndian.Uint16(w[1:]))
 	case sutils.VALTYPE_ENC_BOOL[0]:
 		return len(w) == 2
 	case sutils.VALTYPE_ENC_INT64[0], sutils.VALTYPE_ENC_FLOAT64[0]:
